@@ -241,6 +241,11 @@ type veScenario struct {
 	Prefiles []string `json:"prefiles"`
 	Conns    []veConn `json:"conns"`
 	SnapWait int      `json:"snapwait_ms"`
+	// Rewrites: after the connections, config.toml is replaced by each of these in turn (the daemon watches it)
+	Rewrites []struct {
+		Toml   string `json:"toml"`
+		WaitMs int    `json:"wait_ms"`
+	} `json:"rewrites"`
 }
 
 func veFileInfo(path string) map[string]interface{} {
@@ -602,6 +607,16 @@ func TestVerifE2E(t *testing.T) {
 		enc.Encode(map[string]interface{}{"ev": "e2e-conn-done", "conn": ci, "stream_ms": streamMs, "files": veList(out),
 			"constant": veList(filepath.Join(out, "constant-recordings"))})
 		replyMu.Unlock()
+	}
+	for k, rw := range sc.Rewrites {
+		before := lb.String()
+		txt := strings.ReplaceAll(strings.ReplaceAll(rw.Toml, "{OUT}", out), "{SOCK}", frames)
+		os.WriteFile(filepath.Join(dir, "config.toml"), []byte(txt), 0644)
+		time.Sleep(time.Duration(rw.WaitMs) * time.Millisecond)
+		// still here: the daemon did not exit for this change (os.Exit ends the whole test process)
+		now := lb.String()[len(before):]
+		enc.Encode(map[string]interface{}{"ev": "e2e-rewrite", "k": k, "alive": true,
+			"nochange": strings.Count(now, "No relevant changes detected"), "errors": strings.Count(now, "error reloading config")})
 	}
 	fb.mu.Lock()
 	calls := append([]veBusCall{}, fb.calls...)
